@@ -659,7 +659,119 @@ func validatorToken(v specification.SpecValidator) string {
 	case strings.HasSuffix(name, "catchment/parameters.validateIsBankErosionFudgeFactor"):
 		return "decbounds " + floatBits(math.Pow(10, -5)) + " " + floatBits(5*math.Pow(10, -4))
 	}
+	// not a function this table knows by identity or by name (a validator built by a factory, a renamed one): recognise it by
+	// what it DOES.  The answer is only a candidate: every later `vdirect` / assignment line compares the model's validator of
+	// that kind with this function on many values, so a wrong recognition shows up as a disagreement.
+	if tok := validatorTokenByBehaviour(v); tok != "" {
+		return tok
+	}
 	return "unknown:" + hexS(name)
+}
+
+// validatorProbes: values of every dynamic type a TOML document can give a parameter, with the boundaries the known kinds have.
+func validatorProbes() []interface{} {
+	return []interface{}{
+		nil, true, false, "", "x", "Minimising", "Maximising", []interface{}{int64(1)}, map[string]interface{}{"a": 1.0},
+		int64(math.MinInt64), int64(-1), int64(0), int64(1), int64(2), int64(1000), int64(math.MaxInt64),
+		math.Inf(-1), -math.MaxFloat64, -1.0, -math.SmallestNonzeroFloat64, math.Copysign(0, -1), 0.0, math.SmallestNonzeroFloat64,
+		1e-5, 2e-4, 5e-4, 0.5, 1.0, math.Nextafter(1, 2), 2.0, 1e6, math.MaxFloat64, math.Inf(1), math.NaN(),
+	}
+}
+
+func validatorSignature(v specification.SpecValidator) string {
+	var sb strings.Builder
+	for _, x := range validatorProbes() {
+		verdict := "p"
+		protect(func() { verdict = classifyVerdict(v("probe", x))[:1] })
+		sb.WriteString(verdict)
+	}
+	return sb.String()
+}
+
+func validatorTokenByBehaviour(v specification.SpecValidator) string {
+	sig := validatorSignature(v)
+	for _, tok := range []string{"decimal", "dec01", "decnonneg", "integer", "intnonneg", "string", "boolean"} {
+		if known, _ := directValidator([]string{tok}); known != nil && validatorSignature(known) == sig {
+			return tok
+		}
+	}
+	accepts := func(x interface{}) bool {
+		ok := false
+		protect(func() { ok = classifyVerdict(v("probe", x)) == "valid" })
+		return ok
+	}
+	// an interval of decimals: the bounds by bisection over the ordering of the float64 bit patterns
+	ord := func(f float64) uint64 { // order-preserving map float64 -> uint64
+		b := math.Float64bits(f)
+		if b>>63 == 1 {
+			return ^b
+		}
+		return b | 1<<63
+	}
+	unord := func(u uint64) float64 {
+		if u>>63 == 1 {
+			return math.Float64frombits(u &^ (1 << 63))
+		}
+		return math.Float64frombits(^u)
+	}
+	for _, inside := range []float64{0.5, 2e-4, 1.0, 0.0, 1000.0, -1.0} {
+		if !accepts(inside) || accepts("x") || accepts(int64(1)) || accepts(true) {
+			continue
+		}
+		lo, hi := ord(math.Inf(-1)), ord(inside) // smallest accepted in [lo, hi], acceptance assumed to be an interval
+		for lo < hi {
+			mid := lo + (hi-lo)/2
+			if accepts(unord(mid)) {
+				hi = mid
+			} else {
+				lo = mid + 1
+			}
+		}
+		lower := unord(lo)
+		lo, hi = ord(inside), ord(math.Inf(1))
+		for lo < hi {
+			mid := lo + (hi-lo+1)/2
+			if accepts(unord(mid)) {
+				lo = mid
+			} else {
+				hi = mid - 1
+			}
+		}
+		upper := unord(lo)
+		tok := "decbounds " + floatBits(lower) + " " + floatBits(upper)
+		if known, _ := directValidator(strings.Fields(tok)); known != nil && validatorSignature(known) == sig {
+			return tok
+		}
+	}
+	for _, inside := range []int64{1, 0, 1000, -1} {
+		if !accepts(inside) || accepts("x") || accepts(1.0) || accepts(true) {
+			continue
+		}
+		lo, hi := int64(math.MinInt64), inside
+		for lo < hi {
+			mid := lo + int64((uint64(hi)-uint64(lo))/2)
+			if accepts(mid) {
+				hi = mid
+			} else {
+				lo = mid + 1
+			}
+		}
+		lower := lo
+		lo, hi = inside, int64(math.MaxInt64)
+		for lo < hi {
+			mid := lo + int64((uint64(hi)-uint64(lo)+1)/2)
+			if accepts(mid) {
+				lo = mid
+			} else {
+				hi = mid - 1
+			}
+		}
+		tok := fmt.Sprintf("intbounds %d %d", lower, lo)
+		if known, _ := directValidator(strings.Fields(tok)); known != nil && validatorSignature(known) == sig {
+			return tok
+		}
+	}
+	return ""
 }
 
 // directValidator maps validator tokens to the exported Go validator (with explicit bounds for the two general ones).
